@@ -521,9 +521,11 @@ class JSONGrammar(BaseGrammar):
         self.schema  # noqa: B018
         state = dict(self.__dict__)
         # The validator will be recreated on demand.
-        del state[f"_{self.__class__.__name__}__validator"]
+        # The names of the private attributes are those of the class defining them,
+        # whatever the class of the grammar.
+        del state["_JSONGrammar__validator"]
         # The schema builder cannot be pickled.
-        del state[f"_{self.__class__.__name__}__schema_builder"]
+        del state["_JSONGrammar__schema_builder"]
         # The defaults cannot be pickled as is because it also depends on the schema
         # builder. So we convert it into a raw dictionary.
         state["defaults"] = dict(state.pop("_defaults"))
@@ -536,7 +538,5 @@ class JSONGrammar(BaseGrammar):
         # That will create the missing attributes.
         self.clear()
         self.__dict__.update(state)
-        self.__schema_builder.add_schema(
-            state[f"_{self.__class__.__name__}__schema"], True
-        )
+        self.__schema_builder.add_schema(state["_JSONGrammar__schema"], True)
         self._defaults.update(cast("StrKeyMapping", state.pop("defaults")))
